@@ -918,6 +918,10 @@ class PandasModelBase(
         if res.shape[0] < 1:
             return res
         selection = op.expr.act_on(res, expr_walker=self)
+        if isinstance(selection, self.pd.Series) and (selection.dtype != bool):
+            # a logical column that picked up missing values (outer join, concat) is no longer of dtype bool,
+            # .loc would read its values as row labels: keep the rows where the condition is true
+            selection = selection.isin([True])
         res = self.clean_copy(res.loc[selection, :])
         return res
 
